@@ -186,7 +186,11 @@ class Model:
             latents = [(l, [c for c in ch if c != v]) for l, ch in latents]
         lat_of = {v: [l for l, ch in latents if v in ch] for v in self.order}
         for v in list(nodes) + list(cut_parents):
-            noise_w[v] = np.asarray([rng.randint(1, 3) for _ in range(len(self.noise_w[v]))], dtype=np.int64)
+            if len(self.noise_w[v]) == 1:
+                # a constant stays the constant it is (weight 1: the total weight must stay exactly representable)
+                noise_w[v] = np.asarray([1], dtype=np.int64)
+            else:
+                noise_w[v] = np.asarray([rng.randint(1, 3) for _ in range(len(self.noise_w[v]))], dtype=np.int64)
             tables[v] = _random_table(rng, self.card, parents[v], [len(self.lat_w[l]) for l in lat_of[v]],
                                       len(noise_w[v]), self.card[v])
         return Model(self.order, parents, latents, self.card, noise_w, tables, self.lat_w)
